@@ -43,6 +43,8 @@ def build_schemas(raw_schemas: dict[str, Mapping[str, Any]], raw_components: Map
         if n not in context.parsed_schemas and n not in context.registered_keys_by_raw_name:
             _parse_schema(n, nd, context, allow_self_reference=True)
 
+    _complete_all_of_merges(context)
+
     # Post-condition check: each raw schema must be registered under either its original or sanitized name
     for n in raw_schemas:
         sanitized_n = NameSanitizer.sanitize_class_name(n)
@@ -50,6 +52,38 @@ def build_schemas(raw_schemas: dict[str, Mapping[str, Any]], raw_components: Map
             raise RuntimeError(f"Schema '{n}' (sanitized: '{sanitized_n}') was not parsed")
 
     return context
+
+
+def _complete_all_of_merges(context: ParsingContext) -> None:
+    """Finish the allOf merges that met a base schema while that base was still being parsed.
+
+    Such an allOf member was answered with an empty cycle placeholder (Resource.createdBy -> User,
+    User: allOf [Resource]), so nothing was inherited from it. Now that every schema is complete the placeholder
+    is replaced by the schema it stands for and its properties and required names are merged as _process_all_of
+    does; repeated until nothing changes, as a schema can inherit from one that was completed here.
+    """
+    changed = True
+    while changed:
+        changed = False
+        for schema in list(context.parsed_schemas.values()):
+            if not schema.all_of or schema.type != "object":
+                continue
+            for index, member in enumerate(schema.all_of):
+                if member._is_circular_ref and member._circular_ref_path:
+                    raw_name = member._circular_ref_path.rsplit(" -> ", 1)[-1]
+                    base = context.parsed_schemas.get(context.registered_keys_by_raw_name.get(raw_name, raw_name))
+                    if base is not None and base is not member and base is not schema:
+                        schema.all_of[index] = base
+                        changed = True
+            inherited: dict[str, IRSchema] = {}
+            for member in schema.all_of:
+                for prop_name, prop_schema in member.properties.items():
+                    inherited.setdefault(prop_name, prop_schema)
+            required = set(schema.required).union(*(member.required for member in schema.all_of))
+            if not inherited.keys() <= schema.properties.keys() or required != set(schema.required):
+                schema.properties = {**inherited, **schema.properties}
+                schema.required = sorted(required)
+                changed = True
 
 
 def extract_inline_array_items(schemas: dict[str, IRSchema]) -> dict[str, IRSchema]:
